@@ -28,6 +28,7 @@ type c19Config struct {
 	Extra       int      `json:"extra_container_filters"`
 	Entity      bool     `json:"handlers_write_entities"`
 	Adapter     bool     `json:"adapted_middleware_filter"`
+	Provider    string   `json:"compressor_provider"` // syncpool | bounded1 (a cache that is empty most of the time under concurrency)
 }
 
 // mk builds a fresh container for the configuration.
@@ -130,9 +131,10 @@ func c19Sig(o *rt.Outcome) string {
 
 func c19(ctx *core.Ctx) {
 	quietLogs()
-	ctx.Rule("generated configurations (route table on the router's full template fragment, recording filters at all three levels labelled with their route/service, a filter writing a per-request attribute and a per-request key into PathParameters(), a HandleWithFilter handler, handlers that read the raw request body, an echo route reading gzip-encoded entities that arrive in small slices, 0-5 extra container filters, CORS filter with configured or computed methods, OPTIONS filter, content encoding, handlers writing raw bytes or negotiated entities, streaming handlers that Flush their first chunk, handlers switching PrettyPrint off for their own entity; both routers; Dispatch or ServeHTTP). For each request of a multiset of 40 (hits, near misses, adversarial, malformed Accept, CORS actual and preflight requests for different URLs, Accept-Encoding) the reference is the answer of a FRESH container to that request alone through the same entry point. Then (a) a 200-request sequential history in random order with repetitions, every 5th step preceded by the same request from a client whose connection fails on every body write, (b) batches released together from 16 (now and then 70) goroutines, (c) the sequential history again with trace logging on: status, all headers, decoded body, path parameters, selected route and attributes seen by every filter/handler must equal the reference. Race detector on. Non-trivial = a compared response of a request that ran at least one filter or handler; distinct by (configuration shape, phase, outcome class).")
+	ctx.Rule("generated configurations (route table on the router's full template fragment, recording filters at all three levels labelled with their route/service, a filter writing a per-request attribute and a per-request key into PathParameters(), a HandleWithFilter handler, handlers that read the raw request body, an echo route reading gzip-encoded entities that arrive in small slices, 0-5 extra container filters, CORS filter with configured or computed methods, OPTIONS filter, content encoding with the sync.Pool or a bounded(1,1) compressor provider, handlers writing raw bytes or negotiated entities, streaming handlers that Flush their first chunk, handlers switching PrettyPrint off for their own entity; both routers; Dispatch or ServeHTTP). For each request of a multiset of 40 (hits, near misses, adversarial, malformed Accept, CORS actual and preflight requests for different URLs, Accept-Encoding) the reference is the answer of a FRESH container to that request alone through the same entry point. Then (a) a 200-request sequential history in random order with repetitions, every 5th step preceded by the same request from a client whose connection fails on every body write, (b) batches released together from 16 (now and then 70) goroutines, (c) the sequential history again with trace logging on: status, all headers, decoded body, path parameters, selected route and attributes seen by every filter/handler must equal the reference. Race detector on. Non-trivial = a compared response of a request that ran at least one filter or handler; distinct by (configuration shape, phase, outcome class).")
 	ctx.Assume("the reference is per (request, entry point): ServeHTTP answers unregistered prefixes from net/http's mux")
 	defer restful.EnableTracing(false)
+	defer restful.SetCompressorProvider(restful.NewSyncPoolCompessors())
 	configs := ctx.N(50, 1500)
 	for ci := 0; ci < configs; ci++ {
 		if ctx.Skip(ci) {
@@ -145,6 +147,13 @@ func c19(ctx *core.Ctx) {
 		}
 		if cf.CORS && r.Chance(1, 2) {
 			cf.CORSMethods = []string{"GET", "POST"}
+		}
+		cf.Provider = "syncpool"
+		if ci%5 == 2 || ci%5 == 4 {
+			cf.Provider = "bounded1"
+			restful.SetCompressorProvider(restful.NewBoundedCachedCompressors(1, 1))
+		} else {
+			restful.SetCompressorProvider(restful.NewSyncPoolCompessors())
 		}
 		o := fullGenOpts(cf.Router)
 		o.StarMedia = false
